@@ -5,10 +5,13 @@
 From Coq Require Import Reals List.
 From Coquelicot Require Import Coquelicot.
 From OV.base Require Import Num Piecewise.
-From OV.gen Require Import Gen_ConstrainedObjective.
+From OV.gen Require Import Gen_ConstrainedObjective Gen_AlSolver Gen_BoundConstrainedObjective.
 From OV.model Require Import M_C04_AL.
-From OV.proofs Require Import L_C04.
+From OV.model Require Import M_C19_CFG.
+From OV.gen Require Import CFG_drivers.
+From OV.proofs Require Import L_C04 L_C04_CFG L_C04_Upd.
 Import ListNotations.
+Local Open Scope list_scope.
 Local Open Scope R_scope.
 
 (* Fischer-Burmeister residual small => scaled feasibility, multiplier sign, complementarity in the min form *)
@@ -126,7 +129,79 @@ Proof. exact approx_KKT_is_near_min. Qed.
 
 Theorem C04_product_from_min : forall c l k, 0 < k -> 0 <= c -> 0 <= l -> l * c = Rmin (c * k) l * Rmax (c * k) l / k.
 Proof. exact product_from_min. Qed.
-(* NOT PROVED: convergence (that the loop returns at all): NotConverged (the NameError exit) is a legitimate outcome. *)
+(* ---- the state updates over GENERATED code: the three update statements of AlSolver.solve_sub_step are regenerated from the source
+   on every run (gen/Gen_AlSolver.v, read per constraint) and the outer-loop model calls them ---- *)
+Theorem C04_multiplier_update_generated : forall l k c,
+  @sub_lam_update R NumR l k c = Rmax (l - k * c) 0 /\ 0 <= @sub_lam_update R NumR l k c.
+Proof. exact multiplier_update_generated. Qed.
+Theorem C04_penalty_update_generated : forall k p s,
+  @sub_kappa_update R NumR k p s = (if p then s * k else k)
+  /\ (1 <= s -> 0 <= k -> k <= @sub_kappa_update R NumR k p s /\ 0 <= @sub_kappa_update R NumR k p s).
+Proof. exact penalty_update_generated. Qed.
+Theorem C04_poor_progress_generated : forall e old tdf tl m,
+  @sub_poor_progress R NumR e old tdf tl m = true <-> Rmax (tdf * old) (10 * tl / sqrt m) < e.
+Proof. exact poor_progress_generated. Qed.
+(* after EVERY sub-step (arbitrary oracles): the new multipliers are the generated statement applied to (lam, kappa, c(x')) per
+   constraint, every new penalty is the generated statement applied to the old one for some flag, untouched when the sub-problem
+   solver reported failure; hence lam >= 0 and kappa non-decreasing (penalty_scaling >= 1) follow from the generated code alone *)
+Theorem C04_sub_step_by_generated_updates : forall (cfg : @settings R) (orc : @oracles R) kappa0 it x lam kappa ncpOld s' ok ev,
+  sub_step cfg orc kappa0 it x lam kappa ncpOld = (s', ok, ev) ->
+  slam s' = zip3 (@sub_lam_update R NumR) lam kappa (constraint orc it Sub (sx s'))
+  /\ List.Forall2 (fun k k' => exists p, k' = @sub_kappa_update R NumR k p (penalty_scaling cfg)) kappa (skap s')
+  /\ (ok = false -> skap s' = kappa).
+Proof. exact sub_step_by_generated_updates. Qed.
+Theorem C04_generated_updates_invariants : forall s lam kappa c kappa',
+  List.Forall2 (fun k k' => exists p, k' = @sub_kappa_update R NumR k p s) kappa kappa' -> 1 <= s -> nonneg kappa ->
+  nonneg (zip3 (@sub_lam_update R NumR) lam kappa c) /\ le_vec kappa kappa' /\ nonneg kappa'.
+Proof. exact generated_updates_invariants. Qed.
+
+(* ---- bound-constrained front end (hand model bc_solve of BoundConstrainedSolver.bound_constrained_solve around the outer loop) ----
+   initial state of BoundConstrainedObjective: multipliers max(g*invScaling, 0) (generated statement) >= 0, penalties 0.25 > 0 *)
+Theorem C04_bound_initial_state : forall g,
+  nonneg (@bc_initial_lam R NumR g) /\ List.Forall (fun a => 0 < a) (@bc_initial_kappa R NumR g)
+  /\ length (@bc_initial_lam R NumR g) = length g /\ length (@bc_initial_kappa R NumR g) = length g.
+Proof. exact bc_initial_state. Qed.
+(* every normal return of bound_constrained_solve: raw multipliers and get_multipliers() = lam*scaling >= 0 exactly; because the solve
+   starts from kappa = constraintKappa (reset_kappa) and penalties never decrease, 0 < kappa0_i <= kappa_i at the return (the
+   hypothesis of C04_al_gradient_is_lagrangian_gradient holds by construction); the scaled point passed the termination test *)
+Theorem C04_bound_constrained_return : forall (cfg : @settings R) (orc : @oracles R) scaling isc sc_c kappa0 x0 dxBar lam x mult lam' kappa' ev,
+  bc_solve cfg orc scaling isc sc_c kappa0 x0 dxBar lam = (BCReturned x mult lam' kappa', ev) ->
+  1 <= penalty_scaling cfg -> List.Forall (fun a => 0 < a) kappa0 -> List.Forall (fun a => 0 < a) sc_c ->
+  nonneg lam' /\ nonneg mult /\ mult = @vmul R NumR lam' sc_c
+  /\ List.Forall2 (fun k0 k => 0 < k0 <= k) kappa0 kappa'
+  /\ exists xBar it, x = @vmul R NumR isc xBar /\ (it < max_al_iters cfg)%nat
+       /\ @norm2 R NumR (gradAL orc it Sub xBar lam' kappa') < tol cfg
+       /\ List.Forall (kkt_row (tol cfg)) (zip3 triple (constraint orc it Sub xBar) lam' kappa0).
+Proof. exact bc_solve_return. Qed.
+Example C04_generated_updates_nonvacuous :
+  @sub_lam_update R NumR 1 2 3 = 0 /\ @sub_lam_update R NumR 1 2 (-3) = 7 /\ @sub_kappa_update R NumR 2 true 4 = 8
+  /\ @sub_poor_progress R NumR 1 1 (3 / 4) (1 / 100) 4 = true /\ @sub_poor_progress R NumR (1 / 2) 1 (3 / 4) (1 / 100) 4 = false.
+Proof. exact generated_updates_nonvacuous. Qed.
+
+(* the problem that is solved is the one posed with the parameters of THIS call: on every control-flow path through
+   augmented_lagrange_solve and bound_constrained_solve (control-flow IR regenerated from their ASTs on every run; all combinations of
+   useWarmStart / updatePrecond / updatePrecondBeforeWarmStart; loops 0/1/2 passes) `objective.p = p` is executed exactly once, after
+   every warm start and before the first sub-problem solve, and nothing else stores to .p -- so the oracle values the outer loop
+   reads (the `oracles` of the theorems above) are those of the parameters that were passed; every path ends in a return or the raise *)
+Theorem C04_parameters_of_this_call_installed_on_every_path : forall ts en,
+  In (ts, en) (paths cfg_augmented_lagrange_solve) \/ In (ts, en) (paths cfg_bound_constrained_solve) ->
+  (exists a b, ts = a ++ AssignPNew :: b
+     /\ existsb is_assignp a = false /\ existsb is_assignp b = false
+     /\ existsb is_ws b = false /\ existsb is_solve a = false /\ existsb is_bad ts = false)
+  /\ match en with EndRet _ _ _ | EndRaise => True | _ => False end.
+Proof. exact parameters_installed_on_every_path. Qed.
+Example C04_paths_nonvacuous :
+  has_path cfg_augmented_lagrange_solve (fun ts => andb (existsb is_ws ts) (existsb is_solve ts)) = true
+  /\ has_path cfg_augmented_lagrange_solve (fun ts => andb (andb (negb (existsb is_ws ts)) (negb (existsb (fun t => match t with UpdatePrecond => true | _ => false end) ts))) (existsb is_solve ts)) = true
+  /\ has_path cfg_bound_constrained_solve (fun ts => andb (existsb is_ws ts) (existsb is_solve ts)) = true
+  /\ has_path cfg_bound_constrained_solve (fun ts => andb (negb (existsb is_ws ts)) (existsb is_solve ts)) = true.
+Proof. exact al_paths_nonvacuous. Qed.
+
+(* NOT PROVED: convergence (that the loop returns at all): NotConverged (the NameError exit) is a legitimate outcome.
+   NOT MODELLED (oracles / tested only): the sub-problem solver, linear_update (GMRES), the warm-start increment, jax autodiff of the AL
+   function; the `np.any(poorProgress) and solverSuccess` guard and the evaluation order of solve_sub_step are hand-modelled (trace
+   correspondence), only its three update statements are generated code.  bc_solve (bound-constrained front end) is a hand model tied by
+   checks on real runs and the control-flow IR, not by an executed trace correspondence. *)
 
 (* bound-constrained front end (BoundConstrainedObjective): per constrained dof, with d = scaling > 0, scaled gradient g/d, scaled
    bound d*x >= 0 and multiplier lam, KKT in the scaled variables <=> KKT in the original variables with the multiplier d*lam
@@ -164,3 +239,4 @@ Print Assumptions C04_every_outer_iteration.
 Print Assumptions C04_return_is_KKT.
 Print Assumptions C04_convex_KKT_is_min.
 Print Assumptions C04_approx_KKT_is_near_min.
+Print Assumptions C04_bound_constrained_return.
